@@ -63,10 +63,17 @@ def literal (kind : String) (static_ : Bool) (toks : List Tok) : Option (String 
     let rt := match rtFloat binary toks with
       | some v => fpStr v ","
       | none => "err"
+    -- the mirror of the code (`parse_binary_float` / `parse_decimal_float`, statement by statement) must decide
+    -- what the model prescribes (Props/C20.float_macro_is_literal)
+    let mirror : Option FPVal := ((if binary then fbigNew toks else dbigAsIs toks)).map fpOfParts
+    let chk (s : String) : String :=
+      if mirror = floatLiteral binary toks then s else s ++ " !model-spec-mismatch code-mirror=" ++ (match mirror with
+        | some v => fpStr v ","
+        | none => "reject")
     match floatLiteral binary toks with
     | some v =>
-      some ("ok " ++ (floatPath static_ v.signif.natAbs).name ++ " " ++ fpStr v " " ++ " rt:" ++ rt, "ok " ++ fpStr v " ")
-    | none => some ("reject rt:" ++ rt, "reject")
+      some (chk ("ok " ++ (floatPath static_ v.signif.natAbs).name ++ " " ++ fpStr v " " ++ " rt:" ++ rt), "ok " ++ fpStr v " ")
+    | none => some (chk ("reject rt:" ++ rt), "reject")
   | "rbig" =>
     let rt := rtRatStr toks
     let chk (s : String) : String :=
@@ -77,8 +84,10 @@ def literal (kind : String) (static_ : Bool) (toks : List Tok) : Option (String 
     | none => some (chk ("reject rt:" ++ rt), "reject")
   | _ => none
 
+/-- `eplain` / `estatic`: the `_embedded` entry points (the macros of the `dashu` meta crate): same values,
+    only the namespace of the constructor paths differs -/
 def parseMode (m : String) : Option Bool :=
-  if m = "plain" then some false else if m = "static" then some true else none
+  if m = "plain" || m = "eplain" then some false else if m = "static" || m = "estatic" then some true else none
 
 def dispatch : Dispatch := fun _ op args =>
   match op, args with
